@@ -48,11 +48,11 @@ add("C10", "model_checking",
     "trusted: reexport.rs",
     "bounded-exhaustive enumeration of call histories with a round-trip oracle (explicit-state)", "DESIGN.md §5 C10", "E-ENUM")
 add("C11", "model_checking",
-    "Every sequence of 1..=5 (thorough 6) packets over the 17-packet self-delimiting menu (header fields - source id, observation domain, sequence number, clocks - varying with the position) (all four versions, templates defined by early packets and needed by later ones, IPFIX data for an absent id) is delivered under ALL 2^(n-1) partitions into consecutive parse_bytes calls on a fresh parser; concatenated results and final cache snapshot must equal one-packet-per-call delivery. Maximal chains up to the datagram limit are compared all-in-one vs one-per-call.",
+    "Every sequence of 1..=5 (thorough 6) packets over the 17-packet self-delimiting menu (header fields - source id, observation domain, sequence number, clocks - varying with the position) (all four versions, templates defined by early packets and needed by later ones, IPFIX data for an absent id) is delivered under ALL 2^(n-1) partitions into consecutive parse_bytes calls on a fresh parser; concatenated results and final cache snapshot must equal one-packet-per-call delivery. Every sequence of <=4 packets over an 8-packet large-cache menu (1 100 definitions per packet) likewise. Maximal chains up to the datagram limit are compared all-in-one vs one-per-call.",
     "sequences whose one-per-call run contains an error element are outside the property's domain (counted, not judged); trusted: c11::judge",
     "bounded-exhaustive enumeration of sequences x all partitions (stateless exploration of real code, differential oracle)", "DESIGN.md §5 C11", "E-ENUM")
 add("C12", "model_checking",
-    "All 64 allowed-version sets (16 subsets of {5,7,9,10} x extras {none, {6}, {0,11,65535}, 24 numbers aliasing 5/7/9/10 under mod-2^k masks and byte swap}) x every buffer of 1..=3 (thorough 4) packets over a 26-packet menu (incl. five well-formed packets whose version field aliases a real one in its low byte or byte-swapped) x 6 prior histories delivered under the configuration (two contain unparsable versions and garbage), the buffer delivered twice; EVERY call of the history is compared with a parser that allows all 65 536 versions started from the state the subject should be in: result = maximal leading part with allowed versions; caches = those of the all-allowing parser fed only that part; unknown allowed versions are UnknownVersion errors; allowed_versions itself is unchanged by every call.",
+    "All 64 allowed-version sets (16 subsets of {5,7,9,10} x extras {none, {6}, {0,11,65535}, 24 numbers aliasing 5/7/9/10 under mod-2^k masks and byte swap}) x every buffer of 1..=3 (thorough 4) packets over a 26-packet menu (incl. five well-formed packets whose version field aliases a real one in its low byte or byte-swapped) x 6 prior histories delivered under the configuration (two contain unparsable versions and garbage) and 3 delivered before the configuration is narrowed, the buffer delivered twice; EVERY call of the history is compared with a parser that allows all 65 536 versions started from the state the subject should be in: result = maximal leading part with allowed versions; caches = those of the all-allowing parser fed only that part; unknown allowed versions are UnknownVersion errors; allowed_versions itself is unchanged by every call.",
     "trusted: c12::judge",
     "bounded-exhaustive enumeration of configurations x buffers x states (differential oracle)", "DESIGN.md §5 C12", "E-ENUM")
 add("C13", "model_checking",
@@ -65,7 +65,7 @@ add("C14", "fault_enumeration",
     "exhaustive fault (truncation point) enumeration on the real parser", "DESIGN.md §5 C14", "E-ENUM")
 
 add("C15", "model_checking",
-    "Every point of the scale ladder (every structural repetition the formats allow - records per set, sets per message, template records per set, fields per template, packets per buffer, variable-length lengths, zero-length-field templates, announced counts over short bodies, the V9 retry loop, templates whose fields under-declare their length, and n = 1..32 768 already-cached definitions of either kind followed by one fixed maximal definition or data buffer - at n in {1..16, 24, 32, ... , max-1, max} up to the datagram limit) and every case of the V9/IPFIX grammar products is executed in an isolated worker whose counting global allocator measures bytes requested, peak live and bytes live at return; three fixed laws (peak, output, total/backstop) are judged per evaluation, a growth law per ladder rung (allocation beyond 64 bytes per byte of cached template, per byte of input+output, may not grow more than 3x with n) and a conservative wall-time growth law confirmed by isolated re-measurement.",
+    "Every point of the scale ladder (every structural repetition the formats allow - records per set, sets per message, template records per set, fields per template, packets per buffer, variable-length lengths, zero-length-field templates, announced counts over short bodies, the V9 retry loop, templates whose fields under-declare their length, and n = 1..32 768 already-cached definitions of either kind followed by one fixed maximal definition or data buffer or by a buffer packed with minimal packets - at n in {1..16, 24, 32, ... , max-1, max} up to the datagram limit) and every case of the V9/IPFIX grammar products is executed in an isolated worker whose counting global allocator measures bytes requested, peak live and bytes live at return; three fixed laws (peak, output, total/backstop) are judged per evaluation, a growth law per ladder rung (allocation beyond 64 bytes per byte of cached template, per byte of input+output, may not grow more than 3x with n) and a conservative wall-time growth law confirmed by isolated re-measurement.",
     "the constants of the laws are chosen with head-room over the measured benign maxima (reported in the evidence); coverage is the ladder and the grammar product, not all buffers; trusted: alloc.rs, sweep.rs",
     "bounded-exhaustive execution sweep with allocation accounting (stateless exploration of real code)", "DESIGN.md §5 C15", "E-SWEEP")
 add("C16", "model_checking",
